@@ -428,18 +428,23 @@ func runCase(in *dirIn, base string, ms *masters) (dirObs, error) {
 	}
 	r.Stop()
 	starts := readStarts()
-	// process table: dropped plugins are reaped by a goroutine of the runtime, give it time
+	// process table: dropped plugins are killed and reaped by a goroutine of the runtime; give it
+	// time (up to 5 s while anything is still running, 1.5 s for exited-but-unreaped children)
 	known := map[int]bool{}
-	deadline := time.Now().Add(5 * time.Second)
+	t1 := time.Now()
 	for {
-		alive := false
+		alive, zombie := false, false
 		for _, sr := range starts {
 			known[sr.Pid] = true
-			if procState(sr.Pid) == "alive" {
+			switch procState(sr.Pid) {
+			case "alive":
 				alive = true
+			case "zombie":
+				zombie = true
 			}
 		}
-		if !alive || time.Now().After(deadline) {
+		el := time.Since(t1)
+		if (!alive && !zombie) || (!alive && el > 1500*time.Millisecond) || el > 5*time.Second {
 			break
 		}
 		time.Sleep(10 * time.Millisecond)
@@ -450,6 +455,7 @@ func runCase(in *dirIn, base string, ms *masters) (dirObs, error) {
 		if p.Env == nil {
 			p.Env = []string{}
 		}
+		sort.Strings(p.Env)
 		for _, a := range sr.Argv {
 			p.Argv = append(p.Argv, filepath.Base(a))
 		}
